@@ -254,7 +254,7 @@ type wmodText struct {
 	tail    string
 }
 
-func (m *wmod) render(t wmodText, skipStructs map[string]bool) string {
+func (m *wmod) render(t wmodText) string {
 	b := strings.Builder{}
 	b.WriteString("/-\n" + t.header + "-/\nimport Gts.Gen.GoStrings\n")
 	for _, im := range t.imports {
@@ -265,7 +265,7 @@ func (m *wmod) render(t wmodText, skipStructs map[string]bool) string {
 		b.WriteString("open " + o + "\n")
 	}
 	b.WriteString("set_option linter.unusedVariables false\n\n")
-	st, _ := m.w.structDecls(m.need, skipStructs)
+	st, _ := m.w.structDecls(m.need, m.skipStructs)
 	b.WriteString(st)
 	b.WriteString(t.extra)
 	for _, d := range m.defs {
@@ -370,6 +370,6 @@ func genInsdcWrite(repo string) (string, error) {
 				"  Gts/Gen/GoStrings.lean); the registry look-ups `IsQuotedQualifier` … are parameters.\n",
 			ns:    "Gts.Gen.InsdcWrite",
 			extra: extra.String(),
-		}, nil)
+		})
 	})
 }
